@@ -99,6 +99,7 @@ TypeOK(ty, v) ==
     [] ty = "bool" -> v.k = "bool"
     [] ty = "map" -> v.k = "map"
     [] ty = "arr" -> v.k = "arr"
+    [] ty = "funct" -> v.k = "funct"
     [] OTHER -> FALSE
 
 (***************************************************************************)
@@ -178,7 +179,9 @@ DelPath(v, path) ==
 (***************************************************************************)
 (* Expressions.  Eval returns [v |-> value, st |-> state] (calls may print) *)
 (***************************************************************************)
-RECURSIVE Eval(_, _, _), EvalSeq(_, _, _), Exec(_, _, _), ExecBlock(_, _, _), CallFunc(_, _, _, _), Loop(_, _, _, _), ForEach(_, _, _, _, _, _)
+RECURSIVE Eval(_, _, _), EvalSeq(_, _, _), Exec(_, _, _), ExecBlock(_, _, _), CallFunc(_, _, _, _), Loop(_, _, _, _), ForEach(_, _, _, _, _, _),
+          CallLambda(_, _, _, _), HofMapArr(_, _, _, _, _, _), HofAcc(_, _, _, _, _, _), HofMapMap(_, _, _, _, _, _)
+Funct(node) == [k |-> "funct", n |-> 0, s |-> "", b |-> FALSE, m |-> <<node>>]
 R(v, st) == [v |-> v, st |-> st]
 
 EvalSeq(P, es, st) ==      \* left to right; returns [vs |-> Seq(value), st]
@@ -226,7 +229,21 @@ Eval(P, e, st) ==
                    lo == IF lo0 < 1 THEN 1 ELSE lo0
                    hi == IF hi0 > n THEN n ELSE hi0
                IN IF lo > hi THEN R(A(<<>>), b.st) ELSE R(A(SubSeq(b.v.m, lo, hi)), b.st))
-    [] e.t = "call" -> LET as == EvalSeq(P, e.args, st) IN CallFunc(P, e.f, as.vs, as.st)
+    [] e.t = "call" -> LET as == EvalSeq(P, e.args, st) IN
+                       IF LocalGet(st, e.f).k = "funct" THEN CallLambda(P, LocalGet(st, e.f), as.vs, as.st) ELSE CallFunc(P, e.f, as.vs, as.st)
+    [] e.t = "lambda" -> R(Funct(e), st)
+    \* higher-order functions (reference-dsl-higher-order-functions.md): apply / select / reduce / fold / any / every
+    [] e.t = "hof" ->
+         LET c == Eval(P, e.coll, st)
+             f == Eval(P, e.fn, c.st)
+             i == IF e.f = "fold" THEN Eval(P, e.init, f.st) ELSE R(Absent, f.st)
+         IN IF f.v.k # "funct" \/ c.v.k \notin {"arr", "map"} THEN R(Err, Fatal(i.st))
+            ELSE IF c.v.k = "arr" THEN
+                 (CASE e.f \in {"apply", "select", "any", "every"} -> HofMapArr(P, e.f, c.v.m, 1, f.v, [acc |-> <<>>, st |-> i.st])
+                    [] e.f = "reduce" -> (IF c.v.m = <<>> THEN R(Absent, i.st) ELSE HofAcc(P, c.v.m, 2, f.v, c.v.m[1], i.st))
+                    [] e.f = "fold" -> HofAcc(P, c.v.m, 1, f.v, i.v, i.st))
+            ELSE (CASE e.f \in {"apply", "select", "any", "every"} -> HofMapMap(P, e.f, c.v.m, 1, f.v, [acc |-> <<>>, st |-> i.st])
+                    [] OTHER -> R(Err, Fatal(i.st)))
     [] e.t = "bif" ->
          LET as == EvalSeq(P, e.args, st)  a1 == as.vs[1] IN
          (CASE e.f = "length"     -> R(IF a1.k = "absent" THEN I(0) ELSE IF a1.k \in {"map", "arr"} THEN I(Len(a1.m)) ELSE I(1), as.st)
@@ -234,7 +251,7 @@ Eval(P, e, st) ==
             [] e.f = "is_present" -> R(B(a1.k # "absent"), as.st)
             [] e.f = "haskey"     -> R(IF a1.k = "map" THEN B(MapHas(a1.m, as.vs[2]))
                                        ELSE IF a1.k = "arr" THEN B(as.vs[2].k = "int" /\ ArrIdx(Len(a1.m), as.vs[2].n) # 0) ELSE B(FALSE), as.st)
-            [] e.f = "json_stringify" -> R(IF a1.k \in {"absent", "error"} THEN Err ELSE S(Json(a1)), as.st)
+            [] e.f = "json_stringify" -> R(IF a1.k = "absent" THEN Err ELSE IF a1.k = "error" THEN S("(error)") ELSE S(Json(a1)), as.st)
             [] e.f = "typeof"     -> R(S(CASE a1.k = "str" -> "string" [] a1.k = "bool" -> "boolean" [] a1.k = "arr" -> "array" [] OTHER -> a1.k), as.st)
             [] OTHER -> R(Err, as.st))
 
@@ -254,6 +271,46 @@ CallFunc(P, fname, args, st) ==
      ELSE IF done.ctl = "fatal" THEN R(Err, back)
      ELSE IF f.rty # "" /\ ~(done.ret.k = "absent" /\ f.rty \in {"var", "any"}) /\ ~TypeOK(f.rty, done.ret) THEN R(Err, Fatal(back))
      ELSE R(done.ret, back)
+
+\* a function literal is called in the scope where the call happens: "function literals ... have access to local variables
+\* defined in their enclosing scope"; its parameters and locals live in frames of their own on top
+CallLambda(P, fv, args, st) ==
+  IF st.fuel = 0 \/ st.ctl = "fatal" THEN R(Err, Fatal(st))
+  ELSE LET node == fv.m[1]
+           frame == [i \in 1..Len(node.params) |-> [name |-> node.params[i], ty |-> "var", v |-> args[i]]]
+           frame2 == SelectSeq(frame, LAMBDA b : b.v.k # "absent")
+           inner == [st EXCEPT !.fr = Append(@, frame2), !.fuel = @ - 1, !.ret = Absent]
+           done == ExecBlock(P, node.body, Push(inner))
+           back == [done EXCEPT !.fr = st.fr, !.fuel = st.fuel, !.ctl = IF done.ctl = "fatal" THEN "fatal" ELSE "go", !.ret = Absent]
+       IN IF Len(args) # Len(node.params) THEN R(Err, Fatal(st)) ELSE IF done.ctl = "fatal" THEN R(Err, back) ELSE R(done.ret, back)
+\* apply / select / any / every over an array
+HofMapArr(P, f, items, i, fv, a) ==
+  IF a.st.ctl = "fatal" THEN R(Err, a.st)
+  ELSE IF i > Len(items) THEN
+       (CASE f \in {"apply", "select"} -> R(A(a.acc), a.st) [] f = "any" -> R(B(FALSE), a.st) [] f = "every" -> R(B(TRUE), a.st))
+  ELSE LET r == CallLambda(P, fv, <<items[i]>>, a.st) IN
+       CASE f = "apply"  -> HofMapArr(P, f, items, i + 1, fv, [acc |-> Append(a.acc, r.v), st |-> r.st])
+         [] f = "select" -> (IF r.v.k # "bool" THEN R(Err, Fatal(r.st))
+                             ELSE HofMapArr(P, f, items, i + 1, fv, [acc |-> IF r.v.b THEN Append(a.acc, items[i]) ELSE a.acc, st |-> r.st]))
+         [] f = "any"    -> (IF r.v.k # "bool" THEN R(Err, Fatal(r.st)) ELSE IF r.v.b THEN R(B(TRUE), r.st) ELSE HofMapArr(P, f, items, i + 1, fv, [acc |-> <<>>, st |-> r.st]))
+         [] f = "every"  -> (IF r.v.k # "bool" THEN R(Err, Fatal(r.st)) ELSE IF ~r.v.b THEN R(B(FALSE), r.st) ELSE HofMapArr(P, f, items, i + 1, fv, [acc |-> <<>>, st |-> r.st]))
+\* reduce / fold over an array
+HofAcc(P, items, i, fv, acc, st) ==
+  IF st.ctl = "fatal" THEN R(Err, st)
+  ELSE IF i > Len(items) THEN R(acc, st)
+  ELSE LET r == CallLambda(P, fv, <<acc, items[i]>>, st) IN HofAcc(P, items, i + 1, fv, r.v, r.st)
+\* apply / select / any / every over a map: the function takes key and value; apply's function returns a single-pair map
+HofMapMap(P, f, pairs, i, fv, a) ==
+  IF a.st.ctl = "fatal" THEN R(Err, a.st)
+  ELSE IF i > Len(pairs) THEN
+       (CASE f \in {"apply", "select"} -> R(M(a.acc), a.st) [] f = "any" -> R(B(FALSE), a.st) [] f = "every" -> R(B(TRUE), a.st))
+  ELSE LET r == CallLambda(P, fv, <<pairs[i][1], pairs[i][2]>>, a.st) IN
+       CASE f = "apply"  -> (IF r.v.k # "map" \/ Len(r.v.m) # 1 THEN R(Err, Fatal(r.st))
+                             ELSE HofMapMap(P, f, pairs, i + 1, fv, [acc |-> MapPut(a.acc, r.v.m[1][1], r.v.m[1][2]), st |-> r.st]))
+         [] f = "select" -> (IF r.v.k # "bool" THEN R(Err, Fatal(r.st))
+                             ELSE HofMapMap(P, f, pairs, i + 1, fv, [acc |-> IF r.v.b THEN Append(a.acc, pairs[i]) ELSE a.acc, st |-> r.st]))
+         [] f = "any"    -> (IF r.v.k # "bool" THEN R(Err, Fatal(r.st)) ELSE IF r.v.b THEN R(B(TRUE), r.st) ELSE HofMapMap(P, f, pairs, i + 1, fv, [acc |-> <<>>, st |-> r.st]))
+         [] f = "every"  -> (IF r.v.k # "bool" THEN R(Err, Fatal(r.st)) ELSE IF ~r.v.b THEN R(B(FALSE), r.st) ELSE HofMapMap(P, f, pairs, i + 1, fv, [acc |-> <<>>, st |-> r.st]))
 
 (***************************************************************************)
 (* Statements                                                              *)
@@ -289,6 +346,13 @@ EmitBy(name, v, bys, prefix) ==
                                    ELSE F[i - 1] \o EmitBy(name, v.m[i][2], Tail(bys), Append(prefix, <<S(Head(bys)), v.m[i][1]>>))
        IN F[Len(v.m)]
 
+\* the entries of a nested map at depth n, depth first in insertion order, each as <<k1, ..., kn, value>>
+RECURSIVE EntriesAt(_, _, _), DeepEnough(_, _)
+EntriesAt(v, n, prefix) ==
+  IF n = 0 THEN << Append(prefix, v) >>
+  ELSE LET F[i \in 0..Len(v.m)] == IF i = 0 THEN <<>> ELSE F[i - 1] \o EntriesAt(v.m[i][2], n - 1, Append(prefix, v.m[i][1])) IN F[Len(v.m)]
+DeepEnough(v, n) == n = 0 \/ (v.k = "map" /\ \A i \in 1..Len(v.m) : DeepEnough(v.m[i][2], n - 1))
+
 ExecBlock(P, body, st) ==       \* statements in sequence, stopping at break/continue/return/fatal
   IF body = <<>> \/ st.ctl # "go" THEN st ELSE ExecBlock(P, Tail(body), Exec(P, Head(body), st))
 Scoped(P, body, st) == LET r == ExecBlock(P, body, Push(st)) IN Pop(r)       \* a block is a scope
@@ -311,7 +375,9 @@ Loop(P, l, st, first) ==
 ForEach(P, s, items, i, st, isKV) ==
   IF i > Len(items) \/ st.ctl # "go" THEN st
   ELSE LET scope0 == Push(st)
-           bound == IF isKV THEN << [name |-> s.kn, ty |-> "var", v |-> items[i][1]], [name |-> s.vn, ty |-> "var", v |-> items[i][2]] >>
+           bound == IF s.t = "formulti"       \* for ((k1, ..., kn), v in m): one item per entry at depth n, as <<k1, ..., kn, v>>
+                    THEN [j \in 1..(Len(s.kns) + 1) |-> [name |-> IF j <= Len(s.kns) THEN s.kns[j] ELSE s.vn, ty |-> "var", v |-> items[i][j]]]
+                    ELSE IF isKV THEN << [name |-> s.kn, ty |-> "var", v |-> items[i][1]], [name |-> s.vn, ty |-> "var", v |-> items[i][2]] >>
                     ELSE << [name |-> s.vn, ty |-> "var", v |-> items[i]] >>
            scope == [scope0 EXCEPT !.fr[Len(scope0.fr)] = bound]
            b == Pop(ExecBlock(P, s.body, Push(scope)))
@@ -361,6 +427,10 @@ Exec(P, s, st) ==
          LET s0 == ExecBlock(P, s.init, Push(st)) IN Pop(Loop(P, [c |-> s.c, body |-> s.body, upd |-> s.upd], s0, FALSE))
     [] s.t = "forkv" -> LET x == Eval(P, s.e, st) IN
                         IF x.v.k = "map" THEN ForEach(P, s, x.v.m, 1, x.st, TRUE) ELSE IF x.v.k = "absent" THEN x.st ELSE Fatal(x.st)
+    [] s.t = "formulti" -> LET x == Eval(P, s.e, st) IN           \* break ends the WHOLE loop, continue goes on with the next entry
+                           IF x.v.k = "absent" THEN x.st
+                           ELSE IF x.v.k # "map" \/ ~DeepEnough(x.v, Len(s.kns)) THEN Fatal(x.st)
+                           ELSE ForEach(P, s, EntriesAt(x.v, Len(s.kns), <<>>), 1, x.st, FALSE)
     [] s.t = "for1" -> LET x == Eval(P, s.e, st) IN
                        IF x.v.k = "map" THEN ForEach(P, s, [i \in 1..Len(x.v.m) |-> x.v.m[i][1]], 1, x.st, FALSE)     \* single-variable for over a map binds the keys
                        ELSE IF x.v.k = "arr" THEN ForEach(P, s, x.v.m, 1, x.st, FALSE)
@@ -425,6 +495,8 @@ UnE(e) ==
     [] e.t = "idx"   -> Par(e.e, PrecOf(e.e) < 20) \o Join([i \in 1..Len(e.path) |-> "[" \o UnE(e.path[i]) \o "]"], "")
     [] e.t = "slice" -> Par(e.e, PrecOf(e.e) < 20) \o "[" \o ToString(e.lo) \o ":" \o ToString(e.hi) \o "]"
     [] e.t = "call"  -> e.f \o "(" \o Commas([i \in 1..Len(e.args) |-> UnE(e.args[i])]) \o ")"
+    [] e.t = "lambda" -> "func(" \o Commas(e.params) \o ") " \o UnBlock(e.body)
+    [] e.t = "hof"   -> e.f \o "(" \o UnE(e.coll) \o ", " \o UnE(e.fn) \o (IF e.f = "fold" THEN ", " \o UnE(e.init) ELSE "") \o ")"
     [] e.t = "bif"   -> e.f \o "(" \o Commas([i \in 1..Len(e.args) |-> UnE(e.args[i])]) \o ")"
 UnLhs(l) == (CASE l.t = "local" -> l.name [] l.t = "field" -> "$" \o l.name [] l.t = "oos" -> "@" \o l.name [] l.t = "srec" -> "$*")
             \o Join([i \in 1..Len(l.path) |-> "[" \o UnE(l.path[i]) \o "]"], "")
@@ -445,6 +517,7 @@ UnS(s) ==
                          \o Commas([i \in 1..Len(s.upd) |-> Bare(s.upd[i])]) \o ") " \o UnBlock(s.body)
     [] s.t = "forkv"  -> "for (" \o s.kn \o ", " \o s.vn \o " in " \o UnE(s.e) \o ") " \o UnBlock(s.body)
     [] s.t = "for1"   -> "for (" \o s.vn \o " in " \o UnE(s.e) \o ") " \o UnBlock(s.body)
+    [] s.t = "formulti" -> "for ((" \o Commas(s.kns) \o "), " \o s.vn \o " in " \o UnE(s.e) \o ") " \o UnBlock(s.body)
     [] s.t = "break"  -> "break;"
     [] s.t = "continue" -> "continue;"
     [] s.t = "return" -> "return " \o UnE(s.e) \o ";"
